@@ -311,7 +311,7 @@ def main(chk):
         rnd = env.rng('c05', k)
         shape = SHAPES[k % len(SHAPES)]
         m, funcs, segs = build(rnd, shape)
-        b = m.encode()
+        b = m.encode(wasm.rot_enc(k))
         plan = e2e.Plan(m)
         script, cls = history(rnd, plan, funcs, segs, shape, nops)
         d = env.subdir('c05-%d' % k)
